@@ -124,6 +124,23 @@ def object_path(ctx, npts, targets, b=40):
     alt = lib.fns.frequency.calc_smooth_fa_spectrum_w_custom_matrix(sig, M)
     ctx.claim('matrix_form_equals_direct_form', S.sym_and(*[ctx.eq(alt[j], sm[j], 1e4, rtol=1e-10) for j in range(len(targets))]))
     ctx.claim('non_negative', S.sym_and(*[sm[j] >= 0 for j in range(len(targets))]))
+    # an explicit regeneration with another window parameter, on an object that already holds a smoothed spectrum, gives
+    # the band-b2 mean (again compared with the matrix form built for b2); likewise after the Fourier spectrum itself
+    # was regenerated on a longer padded length
+    for b2 in (20, 100):
+        sig.gen_smooth_fa_spectrum(band=b2)
+        sm2 = sig.smooth_fa_spectrum
+        M2 = lib.fns.frequency.calc_smoothing_matrix_konno_1998(sig.fa_freqs, sig.smooth_fa_freqs, band=b2)
+        alt2 = lib.fns.frequency.calc_smooth_fa_spectrum_w_custom_matrix(sig, M2)
+        ctx.claim('regenerated_with_requested_band_equals_matrix_form',
+                  S.sym_and(len(sm2) == len(targets), *[ctx.eq(alt2[j], sm2[j], 1e4, rtol=1e-10) for j in range(min(len(sm2), len(targets)))]), b2)
+    sig.gen_fa_spectrum(p2_plus=1)
+    sig.gen_smooth_fa_spectrum(band=b)
+    sm3 = sig.smooth_fa_spectrum
+    M3 = lib.fns.frequency.calc_smoothing_matrix_konno_1998(sig.fa_freqs, sig.smooth_fa_freqs, band=b)
+    alt3 = lib.fns.frequency.calc_smooth_fa_spectrum_w_custom_matrix(sig, M3)
+    ctx.claim('regenerated_after_new_fourier_spectrum_equals_matrix_form',
+              S.sym_and(len(sm3) == len(targets), *[ctx.eq(alt3[j], sm3[j], 1e4, rtol=1e-10) for j in range(min(len(sm3), len(targets)))]))
     # changing the smoothing frequencies re-evaluates (setter path)
     sig.smooth_fa_freqs = ctx.np.array(targets[:1])
     ctx.claim('setter_recomputes', len(sig.smooth_fa_spectrum) == 1)
